@@ -27,7 +27,6 @@ def mk_exec(mir, K, Tsize, record):
     ex = Exec(mir, loop_bound=NW + 2)
     uf = lambda name, t, bits=32: sx.uf(name, t, bits)
     ex.contracts.update({
-        "extended_source_block_symbols": lambda e, a: [(sx.TRUE, "ret", Int(uf("KEXT", a[0].t), "u32"), "")],
         "num_lt_symbols": lambda e, a: [(sx.TRUE, "ret", Int(uf("WOF", a[0].t), "u32"), "")],
         "systematic_index": lambda e, a: [(sx.TRUE, "ret", Int(uf("JOF", a[0].t), "u32"), "")],
         "calculate_p1": lambda e, a: [(sx.TRUE, "ret", Int(uf("P1OF", a[0].t), "u32"), "")],
@@ -85,7 +84,7 @@ def pure_callees(mir_text):
 def run(ctx):
     rep = ctx.report
     rep.bounds = {"repair start s": "u32 symbolic", "window length n": "symbolic, unrolled to n <= %d (longer windows are a recorded cut)" % NW,
-                  "block size K": "symbolic 1..=56403 (K', W, J, P1 as uninterpreted functions of K: their correctness is C15's)",
+                  "block size K": "symbolic 1..=56403 (K' through the real look-up; W, J, P1 as uninterpreted functions of K: their correctness is C15's)",
                   "source block number": "u8 symbolic", "blocks in get_encoded_packets": "2 and 3 blocks, repair count r symbolic"}
     rep.assumptions = ["payload equality of overlapping windows is inferred from argument equality: intermediate_tuple/enc_into/rand/deg are pure (no statics in their MIR, checked at run time) and read the same encoder state",
                        "Vec::new/push/extend/len, from_elem, deref_mut, slice iteration are hand models; map/collect of source_packets is not executed, its closure is",
@@ -95,6 +94,16 @@ def run(ctx):
                    "(outside the property's quantifier K+s+n <= 2^24; noted in DESIGN.md as an observation)"]
     replay = Replay(ctx.scratch.path)
     for oc in (True, False):
+        try:
+            symbolic_part(ctx, rep, oc, replay)
+        except Exception as e:      # an unsupported MIR construct: the symbolic obligations are inconclusive, the concrete part still runs
+            import traceback
+            rep.inconclusive("c18/symbolic-part[overflow-checks=%s]" % ("on" if oc else "off"), "MIR executor: %s" % (str(e)[:400] or traceback.format_exc()[-400:]))
+    concrete_part(ctx, rep, replay)
+
+
+def symbolic_part(ctx, rep, oc, replay=None):
+    if True:
         sx.reset()
         tag = "overflow-checks=%s" % ("on" if oc else "off")
         text = dump_mir(ctx.scratch.path, overflow_checks=oc)
@@ -106,8 +115,14 @@ def run(ctx):
             rep.held("c18/payload-callees-are-pure-functions-of-their-arguments[%s]" % tag, "no static/atomic in intermediate_tuple, enc_into, rand, deg", 0.0, "syntactic")
         rp = find_fn(mir, r"::repair_packets$")
         K, S, N, SBN, TS = sx.intvar("K", 1, 56403), sx.var("S", 32), sx.var("N", 32), sx.var("SBN", 8), sx.intvar("TS", 1, 65535)
-        kext = sx.uf("KEXT", K, 32)
-        axioms = [sx.le(K, kext), sx.le(kext, sx.const(56403))]
+        # K' = the real look-up (MIR of extended_source_block_symbols, 477-way chain): solver models are then real inputs
+        exk = Exec(mir)
+        ko = exk.call("extended_source_block_symbols", [Int(K, "u32")])
+        kr = [o for o in ko if o.kind == "ret"]
+        kext = kr[-1].value.t
+        for o in reversed(kr[:-1]):
+            kext = sx.ite(o.cond, o.value.t, kext)
+        axioms = []
         names = ["K", "S", "N", "SBN"]
 
         def run_rp(s_term, n_term):
@@ -142,11 +157,12 @@ def run(ctx):
                 if i:
                     ok.append(sx.lt(pk[i - 1].fields[0].fields[1].t, pid.fields[1].t))
             wrong.append(sx.and_(o.cond, sx.not_(sx.and_(*ok))))
-        rpl = lambda m: None
-        discharge(ctx, "c18/repair_packets(s,n)[i]=(sbn,K+s+i,Enc(Tuple[K',K'+s+i]))[%s]" % tag, pre + [fits, sx.or_(*wrong)], names, replay=rpl, kind="repair-ids")
+        rpl = lambda m: replay_ids(replay, m)
+        discharge(ctx, "c18/repair_packets(s,n)[i]=(sbn,K+s+i,Enc(Tuple[K',K'+s+i]))[%s]" % tag, pre + [fits, sx.or_(*wrong)], names, replay=rpl, key_of=lambda r: "repair ids", kind="repair-ids")
         discharge(ctx, "c18/repair_packets-never-panics-while-K+s+n<=2^24[%s]" % tag, pre + [fits, sx.or_(*[o.cond for o in panics])] if panics else [sx.FALSE], names, replay=rpl, kind="repair-ids")
         nowrap = sx.lt(sx.add(sx.add(kext, S), N), sx.const(1 << 32))
-        discharge(ctx, "c18/ids>=2^24-are-refused(no-u32-wrap)[%s]" % tag, pre + [sx.not_(fits), nowrap, sx.ge(N, sx.const(1)), sx.or_(*[o.cond for o in rets])], names, replay=rpl, kind="repair-ids")
+        too_big = sx.or_(*[sx.and_(o.cond, sx.or_(*[sx.ge(p.fields[0].fields[1].t, sx.const(E24)) for p in o.value.items])) for o in rets if o.value.items])
+        discharge(ctx, "c18/no-packet-with-id>=2^24-is-ever-returned(no-u32-wrap)[%s]" % tag, pre + [nowrap, too_big], names, replay=rpl, kind="repair-ids")
         discharge(ctx, "c18/witness-last-id-2^24-1-producible[%s]" % tag, pre + [sx.eq(sx.add(sx.add(K, S), N), sx.const(E24)), sx.eq(N, sx.const(1)), sx.or_(*[o.cond for o in rets])], names, expect="sat")
         # the tuple arguments recorded for packet i: ISI = K' + s + i with (W, J, P1) of K -- already part of `ok` through TUP(isi);
         # window consistency: packet i of (s, n) equals the only packet of (s + i, 1)
@@ -159,6 +175,9 @@ def run(ctx):
                     continue
                 a = o.value.items[i]
                 for o2 in srets:
+                    if not o2.value.items:
+                        diff.append(sx.and_(o.cond, o2.cond))
+                        continue
                     b = o2.value.items[0]
                     same = [sx.eq(a.fields[0].fields[0].t, b.fields[0].fields[0].t), sx.eq(a.fields[0].fields[1].t, b.fields[0].fields[1].t)]
                     same += [sx.eq(x.t, y.t) for x, y in zip(a.fields[1].fields, b.fields[1].fields)]
@@ -239,27 +258,63 @@ def run(ctx):
         except Exception as e:
             rep.inconclusive("c18/with_encoding_plan[%s]" % tag, "executor: %s" % str(e)[:300])
         rep.functions = sorted(set(rep.functions) | ex.functions_executed)
+
+
+def concrete_part(ctx, rep, replay):
     # ---- concrete: windows vs singles, near both ends of the id range; plans interchangeable
     t0 = time.time()
     n = 0
-    for K, T, s, cnt in ((10, 3, 0, 4), (10, 3, E24 - 10 - 4, 4), (27, 2, 1 << 23, 3), (3, 5, 65534, 4), (101, 1, E24 - 101 - 2, 2)):
+    # block sizes with and without padding (K' > K resp. K' = K), windows at both ends of the id range
+    for K, T, s, cnt in ((10, 3, 0, 4), (10, 3, E24 - 10 - 4, 4), (27, 2, 1 << 23, 3), (3, 5, 65534, 4), (101, 1, E24 - 101 - 2, 2),
+                         (3, 2, E24 - 3 - 4, 4), (11, 1, E24 - 11 - 3, 3), (100, 1, E24 - 100 - 1, 1)):
         for prof in (False, True):
             win = replay.run(["repair", K, T, s, cnt], release=prof)
             singles = [replay.run(["repair", K, T, s + i, 1], release=prof) for i in range(cnt)]
             n += 1
-            w = win.split("packets ")[1].split(",") if win.startswith("packets") else None
-            sg = [x.split("packets ")[1] if x.startswith("packets") else None for x in singles]
-            ids = [int(x.split(":")[0]) for x in w] if w else []
+            w = parse_packets(win)
+            sg = []
+            for x in singles:
+                p1 = parse_packets(x)
+                sg.append(p1[0] if p1 and len(p1) == 1 else None)
+            ids = [i for i, _ in w] if w else []
             if w is None or w != sg or ids != [K + s + i for i in range(cnt)]:
                 rep.violated("c18/native/window-vs-singles/K=%d,s=%d,n=%d" % (K, s, cnt), "window K=%d s=%d" % (K, s),
                              "repair_packets(%d,%d) = %s but single requests give %s" % (s, cnt, str(w)[:200], str(sg)[:200]), {"kind": "window", "K": K, "T": T, "s": s, "n": cnt}, 0.0, "native")
         over = replay.run(["repair", K, T, E24 - K, 1], release=True)
-        if not over.startswith("panic"):
+        po = parse_packets(over)
+        if po is not None and any(i >= E24 for i, _ in po):
             rep.violated("c18/native/id-2^24-refused/K=%d" % K, "id 2^24", "a repair packet with encoding symbol id 2^24 was produced: %s" % over[:100], {"kind": "window", "K": K, "T": T, "s": E24 - K, "n": 1}, 0.0, "native")
     pl = replay.run(["plan", 26], release=True)
     if "equal=true" not in pl:
         rep.violated("c18/native/plans-interchangeable", "plan", "two plans generated for K=26 differ: %s" % pl[:100], {"kind": "plan", "K": 26}, 0.0, "native")
     rep.held("c18/native/windows==singles,ids,2^24-refused,plans-equal", "%d window comparisons" % n, time.time() - t0, "native/concrete", runs=n)
+
+
+def parse_packets(out):
+    """'packets id:hex,id:hex' -> list of (id, hex); None on panic/other."""
+    if not out.startswith("packets"):
+        return None
+    body = out[len("packets"):].strip()
+    return [(int(x.split(":")[0]), x.split(":")[1]) for x in body.split(",") if x]
+
+
+def replay_ids(replay, model):
+    """Native check of one repair window against the id contract (K + s + i, n packets, refusal at 2^24)."""
+    K, S, N = model.get("K", 1), model.get("S", 0), model.get("N", 0)
+    if K > 3000 or N > 64:
+        K = min(K, 3000)
+    res = replay.both(["repair", K, 1, S, N])
+    bad = []
+    for prof, out in res.items():
+        pk = parse_packets(out)
+        fits = K + S + N <= E24
+        if fits:
+            if pk is None or [i for i, _ in pk] != [K + S + i for i in range(N)]:
+                bad.append(prof)
+        else:
+            if pk is not None and any(i >= E24 for i, _ in pk):
+                bad.append(prof)
+    return {"inputs": {"K": K, "S": S, "N": N}, "native": {k: v[:200] for k, v in res.items()}, "reproduced_in": bad}
 
 
 def _obj(r):
